@@ -81,6 +81,8 @@ func (r *c20Reader) Read(p []byte) (int, error) {
 		r.next = r.next[1:]
 		return 8, nil
 	}
+	// any other read (key material, bulk entropy, a pool): real randomness. Whether the scripted
+	// values became the nonces is checked on the acts (calibration below).
 	r.extra++
 	return r.real.Read(p)
 }
@@ -202,6 +204,27 @@ func TestVerif_C20_Wire(t *testing.T) {
 	defer func() { crand.Reader = saved }()
 	pass := func(_ int, e *pb.HandshakeEnvelope) *pb.HandshakeEnvelope { return e }
 
+	// calibration: do scripted values become the nonces of the acts? If the code draws its entropy
+	// differently (bulk reads, a pool) the behaviours, which need chosen nonce values, cannot be
+	// staged on the wire; that is not a failure of the code (the acts harness then binds nonces as
+	// drawn, and the freshness tests judge the nonce source).
+	{
+		s := c20Run(t, rd, peers["I"], peers["R"], "p", "p", c20Nonce[1], c20Nonce[2], pass)
+		ok := s.ierr == nil && s.rerr == nil && s.sent[1] != nil && s.sent[2] != nil &&
+			c20Parse(t, 1, s.sent[1].Message).nonce == c20Nonce[1] && c20Parse(t, 2, s.sent[2].Message).nonce == c20Nonce[2]
+		if s.ierr != nil || s.rerr != nil {
+			rep.Diverge("honest-run-fails", fmt.Sprintf("an untouched handshake of two peers on the same protocol id failed: initiator %v, responder %v", s.ierr, s.rerr), nil, "both complete", nil)
+			rep.Eval("honest", nil)
+			return
+		}
+		if !ok {
+			rep.Note("nonces cannot be scripted through crypto/rand.Reader with this implementation: the wire behaviours were not staged")
+			rep.Count("not_scriptable", len(cases))
+			rep.Unrealized = len(cases)
+			rep.Eval("", map[string]interface{}{"wire replay": "not applicable"})
+			return
+		}
+	}
 	// challenges by concrete nonce pair, learned from honest runs of the real code
 	nonces := []int{1, 2, 3}
 	chal := map[[2]uint64]string{}
@@ -487,4 +510,129 @@ func c20Attack(steps []kit.V) []string {
 		}
 	}
 	return out
+}
+
+// c20ReplayToResponder plays recorded envelopes of acts 1 and 3 to a fresh responder.
+func c20ReplayToResponder(t *testing.T, R c20Peer, e1, e3 *pb.HandshakeEnvelope) (error, uint64) {
+	a, b := net.Pipe()
+	res := make(chan error, 1)
+	go func() {
+		ac, err := newAuthenticatedInboundConnection(a, libp2pnetwork.ConnectionState{}, R.id, R.priv, c20AllowAll{}, "p")
+		if ac != nil {
+			ac.Close()
+		}
+		res <- err
+	}()
+	var n2 uint64
+	go func() {
+		defer b.Close()
+		mo := &protodelim.MarshalOptions{}
+		um := &protodelim.UnmarshalOptions{MaxSize: 4096}
+		if _, err := mo.MarshalTo(b, e1); err != nil {
+			return
+		}
+		var e2 pb.HandshakeEnvelope
+		if err := um.UnmarshalFrom(bufio.NewReader(b), &e2); err != nil {
+			return
+		}
+		n2 = c20Parse(t, 2, e2.Message).nonce
+		if _, err := mo.MarshalTo(b, e3); err != nil {
+			return
+		}
+	}()
+	select {
+	case err := <-res:
+		return err, n2
+	case <-time.After(60 * time.Second):
+		t.Fatalf("responder did not terminate")
+	}
+	return nil, 0
+}
+
+// c20ReplayToInitiator plays a recorded envelope of act 2 to a fresh initiator.
+func c20ReplayToInitiator(t *testing.T, I c20Peer, remote peer.ID, e2 *pb.HandshakeEnvelope) error {
+	a, b := net.Pipe()
+	res := make(chan error, 1)
+	go func() {
+		ac, err := newAuthenticatedOutboundConnection(a, libp2pnetwork.ConnectionState{}, I.id, I.priv, remote, c20AllowAll{}, "p")
+		if ac != nil {
+			ac.Close()
+		}
+		res <- err
+	}()
+	go func() {
+		defer b.Close()
+		mo := &protodelim.MarshalOptions{}
+		um := &protodelim.UnmarshalOptions{MaxSize: 4096}
+		rd := bufio.NewReader(b)
+		var e1 pb.HandshakeEnvelope
+		if err := um.UnmarshalFrom(rd, &e1); err != nil {
+			return
+		}
+		if _, err := mo.MarshalTo(b, e2); err != nil {
+			return
+		}
+		var e3 pb.HandshakeEnvelope
+		_ = um.UnmarshalFrom(rd, &e3) // act 3, if the initiator accepted
+	}()
+	select {
+	case err := <-res:
+		return err
+	case <-time.After(60 * time.Second):
+		t.Fatalf("initiator did not terminate")
+	}
+	return nil
+}
+
+// TestVerif_C20_WireFreshness: HandshakeSessions.tla on the wire path, with the
+// real random source: many sessions of the same two nodes, nonces pairwise
+// distinct, recorded (validly signed) envelopes replayed into later sessions
+// without the honest peer must be rejected.
+func TestVerif_C20_WireFreshness(t *testing.T) {
+	kit.RequireEngine(t)
+	rep := kit.NewReport("C20", "wire_freshness")
+	defer rep.Write(t)
+	I, R := c20NewPeer(t), c20NewPeer(t)
+	rd := &c20Reader{real: crand.Reader} // nothing scripted: Read always passes through
+	pass := func(_ int, e *pb.HandshakeEnvelope) *pb.HandshakeEnvelope { return e }
+	sessions := kit.IntEnv("VERIF_SESSIONS", 48)
+	var recs []*c20Session
+	seen := map[uint64]string{}
+	for i := 0; i < sessions; i++ {
+		s := c20Run(t, rd, I, R, "p", "p", 0, 0, pass)
+		if s.ierr != nil || s.rerr != nil {
+			rep.Diverge("honest-run-fails", fmt.Sprintf("session %d: an untouched handshake failed: initiator %v, responder %v", i, s.ierr, s.rerr), nil, nil, nil)
+			rep.Eval("honest", nil)
+			return
+		}
+		recs = append(recs, s)
+		for who, n := range map[string]uint64{"nonce1": c20Parse(t, 1, s.sent[1].Message).nonce, "nonce2": c20Parse(t, 2, s.sent[2].Message).nonce} {
+			name := fmt.Sprintf("%s of session %d", who, i)
+			if prev, dup := seen[n]; dup {
+				rep.Diverge("nonce-reuse", fmt.Sprintf("one node drew the same nonce %#x twice within %d sessions: as %s and as %s", n, sessions, prev, name),
+					map[string]interface{}{"sessions": sessions}, "pairwise distinct nonces", n)
+			}
+			seen[n] = name
+		}
+		rep.Eval(fmt.Sprintf("session:%d", i%7), nil)
+	}
+	rep.Count("nonces_compared", len(seen))
+	later := kit.IntEnv("VERIF_LATER_SESSIONS", 40)
+	for ri := 0; ri < 2; ri++ {
+		r := recs[ri]
+		for j := 0; j < later; j++ {
+			if err, n2 := c20ReplayToResponder(t, R, r.sent[1], r.sent[3]); err == nil {
+				rep.Diverge("replay-accepted:responder", fmt.Sprintf("the signed envelopes of acts 1 and 3 recorded in session %d, replayed into a later connection to the same responder, completed the handshake (the responder drew nonce %#x again)", ri, n2),
+					map[string]interface{}{"recorded": ri, "later": j}, "rejected", "accepted")
+			}
+		}
+		for j := 0; j < later; j++ {
+			if err := c20ReplayToInitiator(t, I, R.id, r.sent[2]); err == nil {
+				rep.Diverge("replay-accepted:initiator", fmt.Sprintf("the signed envelope of act 2 recorded in session %d, replayed to a later connection of the same initiator, was accepted", ri),
+					map[string]interface{}{"recorded": ri, "later": j}, "rejected", "accepted")
+			}
+			rep.Count("replays", 2)
+		}
+		rep.Eval(fmt.Sprintf("replay:%d", ri), nil)
+	}
 }
